@@ -319,6 +319,14 @@ def probe (i : Nat) : List Int :=
     else List.replicate 26 0
   ct0.set l (ct0.getD l 0 + (if base = 2 then 12 else 8))
 
+/-- the 12 threshold probes of the dumper: total 10 / 11; all-N 2000 / 2001; 2 / 3 foreign letters (B) in 100 and in 101
+    residues; T absent / present once; A, C, G, T, U together; A, C, G, U -/
+def thresholdProbes : List (List Int) :=
+  let mk := fun (a c g t u b n : Int) =>
+    ((((((List.replicate 26 (0 : Int)).set 0 a).set 2 c).set 6 g).set 19 t).set 20 u |>.set 1 b).set 13 n
+  [mk 3 3 2 2 0 0 0, mk 3 3 3 2 0 0 0, mk 0 0 0 0 0 0 2000, mk 0 0 0 0 0 0 2001, mk 25 25 24 24 0 2 0, mk 25 24 24 24 0 3 0,
+   mk 25 25 25 24 0 2 0, mk 25 25 25 23 0 3 0, mk 16 16 16 0 0 0 0, mk 16 16 16 1 0 0 0, mk 10 10 10 10 10 0 0, mk 10 10 10 0 10 0 0]
+
 theorem bump_length (ct : List Int) (x : Nat) : (bump ct x).length = ct.length := by simp [bump]
 
 theorem sqCount_cons_out (c : Nat) (cs : List Nat) (ct : List Int) (n : Nat) (h : letterIdx c < 0 ∨ letterIdx c ≥ 26) :
